@@ -10,6 +10,7 @@ CONSTANTS
   ListenerValues <- NoValues
   OutValues <- ValuesAll
   OutKinds <- KindsAll
+  MCScopes <- ScopesAll
   Emitting = TRUE
 INVARIANT PContained
 INVARIANT PZeroIff
